@@ -39,8 +39,8 @@ static std::optional<Failure> check_addr(Run &R, const Bytes &a, int mask) {
         if (!eq(o[0].dir[m][t], o[v].dir[m][t], true))
             return Failure{"backend-differs-direct", g_case, std::string("is_") + ref::MODE_NAME[m] + "_email tld=" + std::to_string(t) + " '" + show(a) + "': libidn2 build -> " + outcome_str(o[0].dir[m][t]) + ", " + VN[v] + " build -> " + outcome_str(o[v].dir[m][t])};
     }
-    if (vadapt_live() != 4 * 0 + (long) 2) { /* the idnkit Core holds 2 objects in mode 6531 (tld off / on) */
-        return Failure{"context-count", g_case, "idnkit contexts live = " + std::to_string(vadapt_live()) + " while exactly two objects are in mode 6531"};
+    if (vadapt_live() != 3) { /* the idnkit Core holds 3 objects in mode 6531: tld off, tld on, and the veteran of mode 6531 (the veterans of the ASCII modes passed through 6531 and left it again) */
+        return Failure{"context-count", g_case, "idnkit contexts live = " + std::to_string(vadapt_live()) + " while exactly three objects are in mode 6531"};
     }
     return std::nullopt;
 }
